@@ -81,6 +81,14 @@ def _pcs(c):
     lp.invariant("len(lines) <= old(len(lines))")
     lp.measure("len(lines)")
     lp.modifies("lines").modifies("cue_sheet_files", ("list", "opaque"))
+    # C17: whatever stands before (or between) FILE entries - REM, CATALOG, PERFORMER, TITLE ... or a line that merely mentions
+    # `FILE "x" BINARY` further on - opens no file entry; an entry that begins with FILE "<name>" BINARY opens exactly one
+    FIL = r'\s*[Ff][Ii][Ll][Ee]\s+"[^\n]*"\s+[Bb][Ii][Nn][Aa][Rr][Yy][\s\S]*'
+    lp.step("entries-that-do-not-begin-with-FILE-open-no-file-entry",
+            f"implies(not in_re(text, '{FIL}'), len(cue_sheet_files) == prev(len(cue_sheet_files)))")
+    lp.step("a-FILE-entry-opens-exactly-one-file-entry",
+            f"implies(in_re(text, '{FIL}'), len(cue_sheet_files) == prev(len(cue_sheet_files)) + 1)")
+
 
 
 # ================================================================== bounded stand-in: cosmetic transformations on the real parser
